@@ -57,6 +57,7 @@ func caseGen() *rapid.Generator[Case] {
 		} else {
 			c.Script = withHdr.Draw(t, "script")
 		}
+		gen.TwinItems(t, c.Script.Ops)
 		c.Chain = rapid.SliceOfN(rapid.SampledFrom(WrapKinds), 0, 3).Draw(t, "chain")
 		c.Late = rapid.Bool().Draw(t, "late")
 		c.Target = rapid.SampledFrom(Targets).Draw(t, "target")
